@@ -293,6 +293,96 @@ class Exec:
     def mangle(self, attr):
         return frontend.mangle(self.mcls, attr)
 
+    # ------------------------------------------------------------------ helpers without a contract: executed through
+    def find_helper(self, name, cls=None, role=None):
+        """a function of the file under verification that has no contract of its own (typically split off a function under
+        contract): module-level function `name`, or member `name` of class `cls`; None if there is none"""
+        try:
+            if cls is None:
+                return frontend.get_function(self.fi.relpath, None, name)
+            ms = frontend.members(self.fi.relpath, cls)
+            for (nm, r), fi in ms.items():
+                if nm == frontend.mangle(cls, name) and (role is None or r == role):
+                    return fi
+        except frontend.StructError:
+            return None
+        return None
+
+    def mark_inplace(self, p, name):
+        """the local `name` models a mutable object updated in place (a helper called with it sees and makes the updates)"""
+        p.extra["inplace"] = frozenset(p.extra.get("inplace", frozenset())) | {name}
+
+    def inline_call(self, fi, pos, kw, p, argnodes=()):
+        """call of a helper without contract: its body is executed symbolically in place (copy-in of the arguments, copy-out of
+        in-place updates of mutable locals passed by name); no recursion, no generators, loops need an invariant and have none"""
+        stack = getattr(self, "_inline_stack", [])
+        if fi.ident in stack or len(stack) >= 3:
+            raise Unsupported("helper %s without a contract is recursive / nested too deeply" % fi.ident)
+        if any(isinstance(n, (ast.Yield, ast.YieldFrom)) for n in ast.walk(fi.node)):
+            raise Unsupported("generator helper %s has no contract" % fi.ident)
+        a = fi.node.args
+        if a.vararg or a.kwarg or a.kwonlyargs:
+            raise Unsupported("helper %s with star parameters has no contract" % fi.ident)
+        names = [x.arg for x in a.posonlyargs + a.args]
+        if len(pos) > len(names):
+            raise Unsupported("too many arguments for helper %s" % fi.ident)
+        bind = dict(zip(names, pos))
+        for k, v in kw.items():
+            if k not in names or k in bind:
+                raise Unsupported("keyword %s for helper %s" % (k, fi.ident))
+            bind[k] = v
+        defaults = dict(zip(names[len(names) - len(a.defaults):], a.defaults))
+        for n in names:
+            if n not in bind:
+                d = defaults.get(n)
+                if not isinstance(d, ast.Constant) or not (d.value is None or isinstance(d.value, (bool, int, str))):
+                    raise Unsupported("parameter %s of helper %s: missing or non-constant default" % (n, fi.ident))
+                for q, v in self.ev(d, p):
+                    bind[n] = v
+        # which caller locals were passed by plain name (for the copy-out of in-place updates)
+        byname = {}
+        for n, node in zip(names, argnodes):
+            if isinstance(node, ast.Name):
+                if node.id in byname.values():
+                    raise Unsupported("the same local passed twice to helper %s" % fi.ident)
+                byname[n] = node.id
+        saved = (self.fi, self.mcls, self.exits, self.handlers, self.loopstack, self._ord_cache, self.loops)
+        q = p.fork(label="inline:%s" % fi.name)
+        caller_env, caller_inplace = dict(q.env), q.extra.get("inplace", frozenset())
+        q.env = dict(bind)
+        q.extra["inplace"] = frozenset()
+        self.fi, self.mcls, self.exits, self.handlers, self.loopstack, self._ord_cache, self.loops = fi, fi.cls, [], [], [], {}, {}
+        self._inline_stack = stack + [fi.ident]
+        try:
+            live = self.block(fi.body, [q])
+            exits = self.exits
+        finally:
+            self.fi, self.mcls, self.exits, self.handlers, self.loopstack, self._ord_cache, self.loops = saved
+            self._inline_stack = stack
+
+        def back(r):
+            env = dict(caller_env)
+            for prm in r.extra.get("inplace", frozenset()):
+                if prm in byname and prm in r.env:
+                    env[byname[prm]] = r.env[prm]
+                    caller_in = caller_inplace | {byname[prm]}
+                else:
+                    caller_in = caller_inplace
+                r.extra["inplace"] = caller_in
+            if not r.extra.get("inplace"):
+                r.extra["inplace"] = caller_inplace
+            r.env = env
+            r.trace.append("return:%s" % fi.name)
+            return r
+        for r in live:
+            yield back(r), VNONE
+        for ex in exits:
+            r = back(ex.path)
+            if ex.kind == "return":
+                yield r, ex.value
+            else:
+                self.raise_(r, ex.exc)
+
     # ------------------------------------------------------------------ statements
     def run(self, p):
         live = self.block(self.fi.body, [p])
